@@ -9,8 +9,9 @@ therefore either ends in such a state again, or fails with a content-handler err
 site, or at one of the dispatcher's own slice checks (`DispOwn`, excluded by C15 for the lexemes the lexer
 really produces). The site `rBase` is eliminated (`to_token` builds `src = prev_consumed + raw`).
 
-NOT proved (stated precisely at the end): the lifting of this operation-level invariant through
-`Parser.parse` / `Stream.write`, and the scanner-mode (hint) operations.
+The lifting of this operation-level invariant through `Parser.parse` / `Stream.write` is in
+`Lemmas/LexOnlyE.lean` / `Thm/Full5.lean` (round 4). NOT proved: the scanner-mode (hint) operations.
+Both operation theorems are instances of a version for any invariant kept by the events (`EvInv`).
 -/
 import LolHtml.Thm.Full3
 import LolHtml.Lemmas.FullDisp
@@ -564,7 +565,10 @@ def KD (cfg : Cfg) (d : Disp (FullSt cfg)) : Prop := Idle d ∧ J cfg d.ctl.1
 theorem KD_new (cfg : Cfg) (enc : Nat) : KD cfg (Disp.new (fullCtl cfg) (FullSt.init cfg) enc) :=
   ⟨⟨rfl, rfl⟩, J_init cfg⟩
 
-/-- **Full statement of the lexer-mode headline** (NOT proved). For configurations that never leave lexer
+/-- **Full statement of the lexer-mode headline.** ROUND 4 (Thm/Full5.lean): proved up to two lexeme facts —
+`Full_no_panic_lexer_allowed` (no hypothesis: only the glue sites `rAttr` / `rMatcher` remain),
+`Full_no_panic_lexer_partial` (this statement from the two named hypotheses). Items 1, 3 and the `DispOwn` /
+`rPayload` parts of item 2 below are done. Original text: For configurations that never leave lexer
 mode (a document-level text / comment / doctype handler is registered: `Full_initial_scan`, sticky flags),
 no call of the whole model returns a panic- or internal-class error.
 
